@@ -10,3 +10,9 @@ pub(crate) use send_blocks_proof::{verify_extra_hash, SendBlocksProofProcess};
 pub(crate) use send_last_state::SendLastStateProcess;
 pub(crate) use send_last_state_proof::{verify_mmr_proof, SendLastStateProofProcess};
 pub(crate) use send_transactions_proof::SendTransactionsProofProcess;
+
+#[cfg(nervosnetwork_ckb_light_client_verif)]
+pub(crate) use send_last_state_proof::{
+    check_continuous_headers, check_if_response_is_matched, verify_tau, verify_total_difficulty,
+    EpochDifficultyTrend, EstimatedLimit,
+};
